@@ -2,7 +2,9 @@ PROPERTY = "C01"
 LEVEL = "proof"
 # Props.C01: the property theorems; Lemmas.CharsLink / Lemmas.LexerMask: the link theorems that tie the model to
 # the regenerated tables and constants (audited together so that a changed table shows up as a failed obligation)
-LEAN_MODULES = ["CifModel.Props.C01", "CifModel.Props.C01parse", "CifModel.Props.C01Render", "CifModel.Lemmas.CharsLink", "CifModel.Lemmas.LexerMask"]
+LEAN_MODULES = ["CifModel.Props.C01", "CifModel.Props.C01parse", "CifModel.Props.C01Render", "CifModel.Lemmas.ParserStructure", "CifModel.Lemmas.CharsLink", "CifModel.Lemmas.LexerMask",
+                "CifModel.Lemmas.LexQuiet",   # C03_quiet_key_valid: built and audited here until C03.py imports it
+                "CifModel.Props.ReviewC01"]
 REQUIRED = [
     "CifModel.C01_lex_value", "CifModel.C01_lex_value_loop", "CifModel.C01_lex_value_after_ws", "CifModel.C01_nextValue", "CifModel.C01_lex_key",
     "CifModel.C01_lex_name", "CifModel.C01_lex_bracket", "CifModel.C01_lex_keyword",
@@ -19,6 +21,8 @@ REQUIRED = [
     # the lexical glue in general and the end-to-end theorems (Props/C01Render.lean, Lemmas/FeedsRender.lean)
     "CifModel.C01_feeds", "CifModel.C01_parse_render", "CifModel.C01_layout_independent_render",
     "CifModel.C01_presentation_independent", "CifModel.C01_render_instance_hyps", "CifModel.C01_render_instance",
+    # save frames nested to any depth
+    "CifModel.Model.Parser.elemsV", "CifModel.C01_render_nested_hyps", "CifModel.C01_render_nested_instance",
 ]
 GEN = ["CharClass", "ErrCodes"]
 FAMILIES = ["lex", "parsedoc"]
@@ -47,9 +51,9 @@ PARTIAL = [
     "lexical layer: proved (Props/C01.lean).  Integrated layer (Props/C01parse.lean): proved are the value-construction theorems "
     "C01_bare_unk_iff ('?' / '.' read as unknown / not-applicable exactly when unquoted), C01_quoted_is_char / C01_text_is_char, "
     "C01_cif1_brackets_quoted / C01_cif2_brackets_invalid, C01_error_free_policy_independent, and C01_STRUCTURE: over the token "
-    "sequence of every well-formed abstract document of Spec/Grammar.lean (blocks, one level of save frames, scalars, loops, lists / "
+    "sequence of every well-formed abstract document of Spec/Grammar.lean (blocks, save frames NESTED TO ANY DEPTH — for a parser whose max_frame_depth is negative; one level when it is 1 —, scalars, loops, lists / "
     "tables of any depth, every presentation incl. folded / prefixed text fields) the productions report nothing, return CIF_OK and "
-    "store exactly denote(d), under every policy (Lemmas/ParserStructure.lean: structural induction, store view lemmas).  "
+    "store exactly denote(d), under every policy (Lemmas/ParserStructure.lean: `elemsV`, the element loop of a container at any depth, by recursion through the nested frames with the store view composed along the path — View.child).  "
     "C01_PARSE_RENDER is proved WITHOUT a hypothesis about the scanner (Props/C01Render.lean): C01_feeds (Lemmas/FeedsRender.lean) "
     "shows, by ONE induction over the typed pieces of the rendering and the scanner group's C01_lex_* theorems, that for every "
     "document and layout accepted by the decidable predicate C01_feedOk (strings admissible in their presentation, non-blank names "
